@@ -26,6 +26,9 @@ pub struct Config {
     pub unsafe_mutations: bool,
     pub allow_ext: bool,
     pub allow_buffer: bool,
+    /// `with_buffer_size` (documented as limiting the PRNG buffer / maximum pickle size; no property
+    /// may depend on it); None = not set
+    pub bufsize: Option<usize>,
 }
 
 impl Config {
@@ -40,6 +43,7 @@ impl Config {
             unsafe_mutations: false,
             allow_ext: false,
             allow_buffer: false,
+            bufsize: None,
         }
     }
     pub fn to_json(&self) -> Value {
@@ -54,6 +58,7 @@ impl Config {
             "unsafe": self.unsafe_mutations,
             "allow_ext": self.allow_ext,
             "allow_buffer": self.allow_buffer,
+            "bufsize": self.bufsize.map(|b| b.to_string()),
         })
     }
     pub fn from_json(v: &Value) -> Result<Self, String> {
@@ -84,6 +89,7 @@ impl Config {
             unsafe_mutations: g("unsafe")?.as_bool().unwrap_or(false),
             allow_ext: g("allow_ext")?.as_bool().unwrap_or(false),
             allow_buffer: g("allow_buffer")?.as_bool().unwrap_or(false),
+            bufsize: v.get("bufsize").and_then(|b| b.as_str()).and_then(|b| b.parse::<usize>().ok()),
         })
     }
 }
